@@ -2633,7 +2633,18 @@ define_struct_type(InterrogateType &itype, CPPStructType *cpptype,
     const CPPStructType::Base &base = (*bi);
     if (base._vis <= V_public) {
       CPPType *base_type = TypeManager::resolve_type(base._base, scope);
-      TypeIndex base_index = get_type(base_type, false);
+
+      // Defining the base class defines its base classes in turn.  A class
+      // template that derives from another instance of itself, such as
+      // S<N> : S<N - 1>, has no end of them if the specialization that stops
+      // the recursion is not in sight; don't follow it forever.
+      static int base_depth = 0;
+      TypeIndex base_index = 0;
+      if (base_depth < 100) {
+        ++base_depth;
+        base_index = get_type(base_type, false);
+        --base_depth;
+      }
 
       if (base_index == 0) {
         if (base_type != nullptr) {
